@@ -193,6 +193,39 @@ def group_name(pol, scan):
     return pol + (f"_scan{scan[1]}" if scan else "")
 
 
+def fill_builder(fb, filekey, seed, ctx, type_code, tables, plan=None, overrides=None):
+    """write a valid, distinct token into every value field of every record of one file builder"""
+    overrides = overrides or {}
+    inst = fb.inst
+    counts = {}
+    for r, rec in enumerate(inst["records"]):
+        nth = counts.get(rec["name"], 0)
+        counts[rec["name"]] = nth + 1
+        declared = {(rr - 1, pp) for rr, pp, _ in inst["declared"]}
+        for line in range(rec.get("count", 1)):
+            for path, (off, leaf, arr) in fb.index[r].items():
+                if (r, path) in declared:
+                    continue
+                role = leaf["r"]
+                if role in ("preamble", "pixels"):
+                    continue
+                if role == "spare":
+                    continue
+                lkey = line if not (filekey.startswith("IMG") and path.split(".")[0] in PER_FILE_CONSTANT) else 0
+                h = h32(seed, filekey, rec["name"], nth, path, lkey)
+                c = dict(ctx, type_code=type_code)
+                v = special_value(rec["name"], path, leaf, h, c)
+                if v is None:
+                    v = typical_value(leaf, (seed, filekey, rec["name"], nth, path, lkey), tables)
+                if plan is not None:
+                    pv = plan(filekey, rec["name"], nth, path, leaf, line)
+                    if pv is not NOTSET:
+                        v = pv
+                if (filekey, rec["name"], nth, path) in overrides:
+                    v = overrides[(filekey, rec["name"], nth, path)]
+                fb.put(r, path, v, line=line)
+
+
 def build_product(level="1.5", images=(("HH", None, 5, 4),), seed=0, leader=None, nfp=None, scene_id="ALOS2014410740-140829",
                   product_id=None, ctx=None, overrides=None, line_overrides=None, summary_extra=None, plan=None,
                   pixel_special=True, blank=None, kind=None, sample=None, salt_base=None, informational=None):
@@ -218,36 +251,8 @@ def build_product(level="1.5", images=(("HH", None, 5, 4),), seed=0, leader=None
     overrides = dict(overrides or {})
     line_overrides = dict(line_overrides or {})
 
-    def fill(fb, filekey, per_line_const=True):
-        inst = fb.inst
-        counts = {}
-        for r, rec in enumerate(inst["records"]):
-            nth = counts.get(rec["name"], 0)
-            counts[rec["name"]] = nth + 1
-            declared = {(rr - 1, pp) for rr, pp, _ in inst["declared"]}
-            for line in range(rec.get("count", 1)):
-                for path, (off, leaf, arr) in fb.index[r].items():
-                    if (r, path) in declared:
-                        continue
-                    role = leaf["r"]
-                    if role in ("preamble", "pixels"):
-                        continue
-                    if role == "spare":
-                        continue
-                    base = path.split(".")[-1]
-                    lkey = line if not (filekey.startswith("IMG") and path.split(".")[0] in PER_FILE_CONSTANT) else 0
-                    h = h32(seed, filekey, rec["name"], nth, path, lkey)
-                    c = dict(ctx, type_code=type_code)
-                    v = special_value(rec["name"], path, leaf, h, c)
-                    if v is None:
-                        v = typical_value(leaf, (seed, filekey, rec["name"], nth, path, lkey), tables)
-                    if plan is not None:
-                        pv = plan(filekey, rec["name"], nth, path, leaf, line)
-                        if pv is not NOTSET:
-                            v = pv
-                    if (filekey, rec["name"], nth, path) in overrides:
-                        v = overrides[(filekey, rec["name"], nth, path)]
-                    fb.put(r, path, v, line=line)
+    def fill(fb, filekey):
+        fill_builder(fb, filekey, seed, ctx, type_code, tables, plan=plan, overrides=overrides)
 
     # volume directory
     n_img = len(images)
